@@ -40,8 +40,7 @@ import (
 var (
 	rxPunctuation      = regexp.MustCompile(`\s+([.?!,;])\s*(\S*)`)
 	rxTempNewline      = regexp.MustCompile(`\s*\|\\/\|\s*`)
-	rxDisplay          = regexp.MustCompile(`(?i)display:\s*([\w-]+)\s*(?:;|$)`)
-	rxVisibilityHidden = regexp.MustCompile(`(?i)visibility:\s*(:?hidden|collapse)`)
+	rxStyleValue       = regexp.MustCompile(`^[\w-]+$`)
 	rxSrcsetURL        = regexp.MustCompile(`(?i)(\S+)(\s+[\d.]+[xw])?(\s*(?:,|$))`)
 
 	elementWithSizeAttr = map[string]struct{}{
@@ -497,19 +496,42 @@ func IsProbablyVisible(node *html.Node) bool {
 	// Have to null-check node.style and node.className.indexOf to deal
 	// with SVG and MathML nodes. Also check for "fallback-image" so that
 	// Wikimedia Math images are displayed
+	visibility := getInlineStyleValue(styleAttr, "visibility")
 	return displayStyle != "none" &&
 		!dom.HasAttribute(node, "hidden") &&
-		!rxVisibilityHidden.MatchString(styleAttr) &&
+		visibility != "hidden" && visibility != "collapse" &&
 		(nodeAriaHidden == "" || nodeAriaHidden != "true" || strings.Contains(className, "fallback-image"))
+}
+
+// getInlineStyleValue returns the lower-cased value that an inline style gives to the
+// property, or an empty string. As in CSS, white space around the colon and an
+// "!important" priority are allowed and the last declaration of the property wins.
+func getInlineStyleValue(style string, property string) string {
+	result := ""
+	for _, declaration := range strings.Split(style, ";") {
+		name, value, found := strings.Cut(declaration, ":")
+		if !found || !strings.EqualFold(strings.TrimSpace(name), property) {
+			continue
+		}
+
+		value = strings.ToLower(strings.TrimSpace(value))
+		if idx := strings.Index(value, "!"); idx >= 0 && strings.TrimSpace(value[idx+1:]) == "important" {
+			value = strings.TrimSpace(value[:idx])
+		}
+
+		if rxStyleValue.MatchString(value) {
+			result = value
+		}
+	}
+	return result
 }
 
 // GetDisplayStyle returns the default "display" in style property for the specified node.
 func GetDisplayStyle(node *html.Node) string {
 	// Check if display specified in inline style
 	style := dom.GetAttribute(node, "style")
-	parts := rxDisplay.FindStringSubmatch(style)
-	if len(parts) >= 2 {
-		return strings.ToLower(parts[1])
+	if display := getInlineStyleValue(style, "display"); display != "" {
+		return display
 	}
 
 	// Use default display
